@@ -1234,12 +1234,19 @@ def defer_rules(chk, pid, modules=("bt/core.py", "bt/algos.py"), only_hosts=None
     """T-DEFER (C01.R6): a mutator called with update=False sits in a bracket that ends in a refresh of the root."""
     R = Roles(chk.prog)
     n_sites = 0
+    cands = []
     for f in chk.prog.all_functions(modules=modules):
         src_has = any(isinstance(n, ast.keyword) and n.arg == "update" and isinstance(n.value, ast.Constant) and n.value.value is False for n in ast.walk(f.node))
         pos_false = any(isinstance(n, ast.Call) and isinstance(n.func, ast.Attribute) and n.func.attr in MUTATOR_NAMES and any(isinstance(a, ast.Constant) and a.value is False for a in n.args)
                         for n in ast.walk(f.node))
         if not (src_has or pos_false):
             continue
+        # the bracket of a private helper is closed by the functions it works for (it is inlined into them)
+        hosts = [h for h in working_for(chk.prog, f) if h.module in modules] if f.name not in MUTATOR_NAMES else [f]
+        for h in (hosts or [f]):
+            if h not in cands:
+                cands.append(h)
+    for f in cands:
         if only_hosts is not None and f.qual not in only_hosts:
             continue
         host_cls = f.cls
